@@ -16,6 +16,7 @@ var scripts = map[string]func(rn *Runner){
 	"xfervote":  scriptXferVote,
 	"snapterm":  scriptSnapTerm,
 	"cfggate":   scriptCfgGate,
+	"longstale": scriptLongStale,
 	"cfgquorum": scriptCfgQuorum,
 }
 
@@ -540,4 +541,42 @@ func scriptCfgQuorum(rn *Runner) {
 	time.Sleep(6 * rn.el())
 	c.Net.Heal()
 	time.Sleep(4 * rn.el())
+}
+
+// scriptLongStale: leader A is cut off and keeps taking writes nobody else gets; the rest elects B,
+// which commits fewer entries than A has appended and then goes down for good (a minority). What
+// is left - A with the longer log that ends in the older term, and followers with B's shorter log
+// that ends in the newer term - is a majority that can talk: one of the followers has to win (A
+// must grant: a newer last term beats a longer log), and A has to be repaired.
+func scriptLongStale(rn *Runner) {
+	c := rn.C
+	hb := time.Duration(rn.Sc.P.HeartbeatMs) * time.Millisecond
+	A := rn.waitLeader(nil, 30)
+	if A == nil {
+		return
+	}
+	time.Sleep(rn.el())
+	if A = rn.waitLeader(nil, 30); A == nil {
+		return
+	}
+	rn.applyBurst(A, 2, "l")
+	time.Sleep(2 * hb)
+	rn.cutOff(A)
+	rn.applyBurst(A, 6+rn.rng.Intn(8), "stale")
+	B := rn.waitNewLeader(A, nil, 20*rn.Sc.P.ElectionMs)
+	if B == nil {
+		rn.note("no second leader")
+		c.Net.Heal()
+		return
+	}
+	rn.applyBurst(B, 1+rn.rng.Intn(2), "new")
+	time.Sleep(3 * hb)
+	rn.note("A=%s (stale, long) B=%s (goes down)", A.name, B.name)
+	c.Crash(B)
+	if rn.tailDown == nil {
+		rn.tailDown = map[*Node]bool{}
+	}
+	rn.tailDown[B] = true
+	c.Net.Heal()
+	time.Sleep(2 * rn.el())
 }
